@@ -799,6 +799,8 @@ def _copy_nested_core(A: Analysis, col: Collector, rule: str):
         col.fail(rule, cf.qualname, "fileset-memo", "copy_fileset no longer memoises per file-set: an object appearing twice is staged twice", A.loc(cf.node))
     # the shared set is created only when not supplied
     init = [n for n in walk_own(cn.node) if isinstance(n, ast.If) and norm(n.test) == "clashes_to_avoid is None"]
+    # the same decision as a conditional expression: x = set() if x is None else x
+    init += [n for n in walk_own(cn.node) if isinstance(n, ast.Assign) and norm(n.targets[0]) == "clashes_to_avoid" and isinstance(n.value, ast.IfExp) and norm(n.value.test) in ("clashes_to_avoid is None", "clashes_to_avoid is not None") and "clashes_to_avoid" in (norm(n.value.orelse), norm(n.value.body))]
     if init:
         col.ok(rule, "copy_nested_files creates a clash set only when the caller supplied none", A.loc(init[0]))
     else:
@@ -1057,7 +1059,12 @@ def check_c37(A: Analysis, col: Collector):
         f = A.func(f"{g}.{name}")
         col.scope(f.qualname)
         guards = [n for n in walk_own(f.node) if isinstance(n, ast.If) and norm(n.test) == "self._sorted_nodes is not None" and any(isinstance(c, ast.Call) and isinstance(c.func, ast.Attribute) and c.func.attr == "sorting" for c in ast.walk(n))]
-        if guards and guards[0] is f.node.body[-1]:
+        # guard-clause form: `if self._sorted_nodes is None: return` followed by the re-sort as last statement
+        last = f.node.body[-1]
+        early = [n for n in f.node.body if isinstance(n, ast.If) and norm(n.test) == "self._sorted_nodes is None" and len(n.body) == 1 and isinstance(n.body[0], ast.Return) and not n.orelse]
+        if not guards and early and isinstance(last, ast.Expr) and isinstance(last.value, ast.Call) and isinstance(last.value.func, ast.Attribute) and last.value.func.attr == "sorting" and f.node.body.index(early[-1]) == len(f.node.body) - 2:
+            col.ok("C37.resort", f"{name} re-sorts when a sorted list exists (guard clause + re-sort as last statement)", A.loc(last))
+        elif guards and guards[0] is f.node.body[-1]:
             col.ok("C37.resort", f"{name} re-sorts when a sorted list exists (last statement, after the connection maps were updated)", A.loc(guards[0]))
         else:
             col.fail("C37.resort", f.qualname, "no-resort-after-mutation", f"{name} changes nodes/edges without re-sorting an existing sorted list", A.loc(f.node))
